@@ -20,6 +20,7 @@ import (
 	"context"
 	"fmt"
 	"io"
+	"strings"
 
 	"github.com/containerd/containerd/v2/core/content"
 	"github.com/containerd/containerd/v2/core/images"
@@ -122,6 +123,9 @@ func LayerConvertFunc(opts ...estargz.Option) converter.ConvertFunc {
 			} else {
 				newDesc.MediaType += "+gzip"
 			}
+		} else if mt, ok := strings.CutSuffix(newDesc.MediaType, "+zstd"); ok {
+			// The source is zstd-compressed but the blob written here is gzip-compressed.
+			newDesc.MediaType = mt + "+gzip"
 		}
 		newDesc.Digest = w.Digest()
 		newDesc.Size = n
